@@ -20,7 +20,8 @@ REQUIRED_CLASSES = {t: ["analyzer:Elementary", "analyzer:Probit", "analyzer:MaxL
                         "data:fracture_below_highest_runout", "data:pure_fracture_level_below_highest_runout", "relation:scaling_by_orders_of_magnitude", "data:no_runouts"]
                     for t in ("quick", "thorough")}
 REQUIRED_MONITORS = ["load_scaling:SD*c,rest_unchanged", "cycle_scaling:ND*c,rest_unchanged", "row_permutation:identical",
-                     "exact_data:k_1_exact", "exact_data:TN==TS==1", "zones_partition_at_transition", "loglik(MaxLike)>=loglik(Elementary)", "likelihood_equivariant"]
+                     "exact_data:k_1_exact", "exact_data:TN==TS==1", "zones_partition_at_transition", "loglik(MaxLike)>=loglik(Elementary)", "likelihood_equivariant",
+                     "row_permutation:data_properties_identical"]
 RULE = ("seeded synthetic fatigue test series (Basquin curve + log-normal scatter; 3..5 finite-life levels, 2..4 levels around the "
         "endurance limit with mixed fractures and run-outs, run-out limit 1e7) analysed by Elementary, Probit, MaxLikeInf and "
         "MaxLikeFull; each data set is re-analysed after scaling the loads, scaling the cycles (dyadic factors) and permuting the "
@@ -56,7 +57,7 @@ def generate(ctx):
     plan = [("reg", ctx.scaled(cnt["reg"])), ("inf", ctx.scaled(cnt["inf"])), ("full", max(1, cnt["full"] // ctx.nshards))]
     for group, n in plan:
         for i in range(n):
-            yield {"group": group, "rseed": int(rng.integers(0, 2**31)), "exact": bool(group == "reg" and i % 5 == 0),
+            yield {"group": group, "rseed": int(rng.integers(0, 2**31)), "exact": bool((group == "reg" and i % 5 == 0) or (group == "inf" and i % 6 == 1) or (group == "full" and i % 4 == 1)),
                    "norun": bool(group == "reg" and i % 8 == 3)}
 
 
@@ -155,6 +156,20 @@ def run_case(case, ctx):
     ok = (len(fz) + len(iz) == len(df) and set(fz.index).isdisjoint(iz.index) and bool((fz.load > tr).all()) and bool((iz.load <= tr).all())
           and bool(fz.fracture.all()))
     ctx.check("zones_partition_at_transition", ok, observed={"finite": len(fz), "infinite": len(iz), "transition": tr, "rows": len(df)})
+    # what the data object itself reports must not depend on the row order either (level lists, transitions: bitwise)
+    fdp = df.iloc[rng.permutation(len(df))].reset_index(drop=True).fatigue_data
+    def _props(f_):
+        out = {"transition": float(f_.finite_infinite_transition), "max_runout_load": float(f_.max_runout_load) if len(f_.runouts) else None}
+        for nm in ("fractured_loads", "runout_loads", "mixed_loads", "pure_runout_loads"):
+            out[nm] = np.asarray(getattr(f_, nm), dtype=float).tolist()
+        if len(f_.runouts):
+            out["conservative_transition"] = float(f_.conservative_finite_infinite_transition().finite_infinite_transition)
+        return out
+    try:
+        pa, pb = _props(df.copy().fatigue_data), _props(fdp)
+        ctx.check("row_permutation:data_properties_identical", pa == pb, observed=pb, expected=pa)
+    except Exception as e:
+        ctx.fail("row_permutation:data_properties_identical", observed=f"{type(e).__name__}: {e}"[:200])
     c_load = float(2.0 ** int(rng.integers(-3, 4)) * (1 if rng.random() < 0.5 else 3))
     c_cyc = float(2.0 ** int(rng.integers(-4, 5)))
     if rng.random() < 0.3:
@@ -179,6 +194,9 @@ def run_case(case, ctx):
             raise
         exact_method = name in ("Elementary", "Probit")
         mech = ["c18_scatter_free_data_pearl_chain_regression_on_rounding_noise"] if case["exact"] else []
+        if case["exact"] and name == "MaxLikeFull":
+            # with TN = 1 the finite-life likelihood is a singularity: the optimiser cannot stay there
+            mech = mech + ["c18_maxlikefull_leaves_the_scatter_free_start"]
         if case["exact"]:
             ctx.tag("exact_basquin_data")
             ctx.check("exact_data:k_1_exact", abs(float(base["k_1"]) - truth["k"]) <= 1e-9 * truth["k"], observed=float(base["k_1"]),
